@@ -28,7 +28,7 @@ inline const char* gateName(int g) {
 }
 
 // handle kinds: 0 variable q<decl>; 1 array element r<decl>[elem]; 2 object field o<decl>.q; 3 object array field p<decl>.qs[elem];
-// 4 alias variable a<decl> (a copy of another handle, may outlive the object it was copied from)
+// 4 alias variable a<decl> (a copy of another handle, may outlive the object it was copied from); 5 static field SQ.s
 struct Handle {
     int k = 0, decl = 0, elem = 0;
 };
@@ -50,7 +50,7 @@ struct Op {
 };
 
 inline const std::vector<const char*>& angleTable() {
-    static const std::vector<const char*> t = {"0.0", "1.5707964", "3.1415927", "6.2831855", "0.000000001", "1000.0", "0.3", "1.1", "2.7", "4.4", "5.9", "0.7853982", "2.0943951", "12.566371"};
+    static const std::vector<const char*> t = {"0.0", "1.5707964", "3.1415927", "6.2831855", "0.000000001", "1000.0", "0.3", "1.1", "2.7", "4.4", "5.9", "0.7853982", "2.0943951", "12.566371", "0.0001", "0.0003", "0.00005", "0.0006"};
     return t;
 }
 inline double angleValue(const Op& o) {
@@ -65,6 +65,7 @@ inline std::string angleText(const Op& o) {
 struct Plan {
     std::vector<Op> ops;
     int shots = 0;            // 0 = no @shots annotation (clirun)
+    bool staticQubit = false; // a class with a 'static qubit' field (handle kind 5, SQ.s), allocated before main runs
 };
 
 // ---- declaration table (shared by generator, renderer and interpreter) ---------------------------
@@ -81,6 +82,7 @@ inline std::string handleExpr(const Handle& h) {
         case 1: return "r" + std::to_string(h.decl) + "[" + std::to_string(h.elem) + "]";
         case 2: return "o" + std::to_string(h.decl) + ".q";
         case 4: return "a" + std::to_string(h.decl);
+        case 5: return "SQ.s";
         default: return "p" + std::to_string(h.decl) + ".qs[" + std::to_string(h.elem) + "]";
     }
 }
@@ -93,7 +95,7 @@ struct Rendered {
     int mainFirstLine = 0;
 };
 
-inline std::string preamble(bool trackedFields) {
+inline std::string preamble(bool trackedFields, bool staticQubit = false) {
     std::string t = trackedFields ? "@tracked " : "";
     std::string s;
     s += "class Q1 {\n";
@@ -108,6 +110,7 @@ inline std::string preamble(bool trackedFields) {
     s += "    public function cxFrom(qubit c) -> void { cx(c, this.q); }\n";
     s += "    public function on(qubit p, int g) -> void { if (g == 0) { h(p); } if (g == 1) { x(p); } if (g == 2) { y(p); } if (g == 3) { z(p); } }\n";
     s += "}\n";
+    s += "class Q1D extends Q1 {\n    public int tag;\n    public constructor() -> Q1D { super(); this.tag = 1; return this; }\n}\n";
     s += "class Q2 {\n";
     s += "    " + t + "public qubit[2] qs;\n";
     s += "    public constructor() -> Q2 = default;\n";
@@ -123,6 +126,7 @@ inline std::string preamble(bool trackedFields) {
     s += "function freset(qubit p) -> void { reset p; }\n";
     s += "function farrx(qubit[] r, int i) -> void { x(r[i]); }\n";
     s += "function farrm(qubit[] r) -> void { measure r; }\n";
+    if (staticQubit) s += "static class SQ { public static qubit s; }\n";
     s += "class QB { public qubit q; public constructor() -> QB = default; }\n";
     s += "class QS extends QB { public QS next; public constructor() -> QS { super(); this.next = null; return this; } }\n";
     s += "function mkCycle() -> void { QS ca = new QS(); QS cb = new QS(); ca.next = cb; cb.next = ca; }\n";
@@ -147,7 +151,7 @@ inline std::string gateCall(const Op& o, const std::vector<DeclInfo>& decls) {
 
 inline Rendered render(const Plan& p, bool trackedFields = false) {
     Rendered R;
-    std::string pre = preamble(trackedFields);
+    std::string pre = preamble(trackedFields, p.staticQubit);
     int line = 1;
     for (char c : pre)
         if (c == '\n') ++line;
@@ -169,7 +173,7 @@ inline Rendered render(const Plan& p, bool trackedFields = false) {
         switch (o.kind) {
             case DECL: add(std::string(o.tracked ? "@tracked " : "") + "qubit q" + std::to_string(declCounter++) + ";", oi, true); break;
             case DECLARR: add(std::string(o.tracked ? "@tracked " : "") + "qubit[" + std::to_string(o.size) + "] r" + std::to_string(declCounter++) + ";", oi, true); break;
-            case NEWOBJ1: add("Q1 o" + std::to_string(declCounter) + " = new Q1();", oi, true); ++declCounter; break;
+            case NEWOBJ1: add(std::string("Q1 o") + std::to_string(declCounter) + (o.path % 3 == 1 ? " = new Q1D();" : " = new Q1();"), oi, true); ++declCounter; break;
             case NEWOBJ2: add("Q2 p" + std::to_string(declCounter) + " = new Q2();", oi, true); ++declCounter; break;
             case GATE: add(gateCall(o, decls), oi, true); break;
             case IFGATE: add("if (b" + std::to_string(o.cond) + ") { " + gateCall(o, decls) + " }", oi, true); break;
@@ -242,11 +246,12 @@ inline Json toJson(const Plan& p) {
             .set("tracked", o.tracked).set("size", o.size).set("destroy", o.viaDestroy).set("draw", o.drawKind).set("r64", sim::hex64(o.r64)).set("r64b", sim::hex64(o.r64b)).set("bitvar", o.bitvar);
         a.push(j);
     }
-    return Json::object().set("ops", a).set("shots", p.shots);
+    return Json::object().set("ops", a).set("shots", p.shots).set("static_qubit", p.staticQubit);
 }
 inline Plan fromJson(const Json& j) {
     Plan p;
     p.shots = (int)j.at("shots").asInt();
+    p.staticQubit = j.at("static_qubit").asBool();
     for (auto& e : j.at("ops").a) {
         Op o;
         o.kind = (int)e.at("kind").asInt();
@@ -282,6 +287,8 @@ struct GenOptions {
     double aliasProb = 0.0;            // copy an object's qubit handle into a variable that may outlive the object
     double cycleProb = 0.0;            // leave a garbage cycle of subclass objects whose base class owns a qubit
     double echoMeasureProb = 0.1;      // measure nested directly in an echo argument
+    double sameQubitCxProb = 0.0;      // cx whose two operands are the same qubit, passed through two function parameters
+    bool staticQubit = false;
 };
 
 // Generator-side bookkeeping mirrors the interpreter's notion of which qubits are measured, so that
@@ -314,6 +321,7 @@ inline Plan generate(sim::Rng& g, const GenOptions& go) {
     };
     int n = g.range(3, go.maxOps);
     bool stop = false;
+    if (go.staticQubit) { p.staticQubit = true; live.push_back({{5, 0, 0}, false}); allocated += 1; }
     for (int i = 0; i < n && !stop; ++i) {
         Op o;
         o.path = (int)g.below(12);
@@ -345,10 +353,22 @@ inline Plan generate(sim::Rng& g, const GenOptions& go) {
             o.kind = GATE;
             o.h = Handle{4, aliases[g.below(aliases.size())], 0};
             o.gate = g.chance(0.5) ? 1 : (int)g.below(7);
-            o.angle = (int)g.below(14);
+            o.angle = (int)g.below(18);
             o.path = (int)g.below(2);
             p.ops.push_back(o);
             continue;
+        }
+        if (go.sameQubitCxProb > 0 && !live.empty() && g.chance(go.sameQubitCxProb)) {
+            std::vector<size_t> act2;
+            for (size_t k = 0; k < live.size(); ++k) if (!live[k].measured && live[k].h.k != 4) act2.push_back(k);
+            if (!act2.empty()) {
+                o.kind = CX;
+                o.h = o.h2 = live[act2[g.below(act2.size())]].h;
+                o.path = 1;  // fcx(a, a): two parameters bound to one qubit - accepted by any analyser
+                p.ops.push_back(o);
+                stop = true;
+                continue;
+            }
         }
         double u = g.unit();
         bool wantGuard = go.guardViolationProb > 0 && !measuredIdx.empty() && g.chance(go.guardViolationProb);
@@ -372,8 +392,17 @@ inline Plan generate(sim::Rng& g, const GenOptions& go) {
         if (wantGuard) {
             // touch a measured qubit: gate, second measure or cx operand
             size_t k = measuredIdx[g.below(measuredIdx.size())];
-            int w = (int)g.below(4);
-            if (w == 0 || active.empty()) { o.kind = GATE; o.h = live[k].h; o.gate = (int)g.below(7); o.angle = (int)g.below(14); }
+            int w = (int)g.below(5);
+            if (w == 4 && (live[k].h.k == 1 || live[k].h.k == 3)) {
+                o.kind = MEAS_ARR;
+                o.h = Handle{live[k].h.k, live[k].h.decl, 0};
+                drawSpec(o);
+                p.ops.push_back(o);
+                stop = true;
+                continue;
+            }
+            if (w == 4) w = 0;
+            if (w == 0 || active.empty()) { o.kind = GATE; o.h = live[k].h; o.gate = (int)g.below(7); o.angle = (int)g.below(18); }
             else if (w == 1) { o.kind = g.chance(0.5) ? MEAS_STMT : MEAS_EXPR; o.h = live[k].h; if (o.kind == MEAS_EXPR) o.bitvar = bitvars++; drawSpec(o); }
             else { o.kind = CX; size_t a = active[g.below(active.size())]; if (w == 2) { o.h = live[k].h; o.h2 = live[a].h; } else { o.h = live[a].h; o.h2 = live[k].h; } }
             p.ops.push_back(o);
@@ -415,7 +444,7 @@ inline Plan generate(sim::Rng& g, const GenOptions& go) {
             o.kind = GATE;
             o.h = live[active[g.below(active.size())]].h;
             o.gate = g.chance(go.entangleBias) ? (g.chance(0.6) ? 0 : 5) : (int)g.below(7);
-            o.angle = (int)g.below(14);
+            o.angle = (int)g.below(18);
             o.angleNeg = g.chance(0.3);
             if (bitvars > 0 && g.chance(0.15)) { o.kind = IFGATE; o.cond = (int)g.below((uint64_t)bitvars); }
             p.ops.push_back(o);
@@ -506,7 +535,9 @@ struct Interp {
     uint64_t ambiguous = 0, uncertainDraws = 0, genuineResets = 0, entangledResets = 0, boundaryDraws = 0, reuseEvents = 0, noncanonicalDraws = 0, zeroProbForced = 0;
     double tol = 1e-9;
 
-    int resolve(const Handle& h) const { return declIdx[(size_t)h.decl][(size_t)((h.k == 1 || h.k == 3) ? h.elem : 0)]; }
+    int staticIdx = -1;
+    void begin(const Plan& p) { if (p.staticQubit) staticIdx = allocIndex(); }
+    int resolve(const Handle& h) const { if (h.k == 5) return staticIdx; return declIdx[(size_t)h.decl][(size_t)((h.k == 1 || h.k == 3) ? h.elem : 0)]; }
     std::vector<int> leaked;                   // indices allocated but owned by nothing the program can name
     std::map<int, int> aliasTarget;            // alias decl id -> decl id it was copied from
 
@@ -551,7 +582,7 @@ struct Interp {
             return bits;
         };
         if (o.kind == MEAS_STMT || o.kind == MEAS_EXPR) {
-            if (o.h.decl < (int)declIdx.size()) d.push_back(spec(o.r64, sv.prob1(resolve(o.h)), true));
+            if (o.h.k == 5 || o.h.decl < (int)declIdx.size()) d.push_back(spec(o.r64, sv.prob1(resolve(o.h)), true));
         } else if (o.kind == MEAS_ARR) {
             d.push_back(spec(o.r64, sv.prob1(declIdx[(size_t)o.h.decl][0]), true));
             d.push_back(o.r64b);
